@@ -339,7 +339,7 @@ func (wr *warcRecord) Merge(record ...WarcRecord) (WarcRecord, error) {
 	}
 
 	wr.recordType = record[0].Type()
-	wr.headers.Set(WarcType, "response")
+	wr.headers.Set(WarcType, record[0].WarcHeader().Get(WarcType))
 	wr.headers.Delete(WarcRefersTo)
 	wr.headers.Delete(WarcRefersToTargetURI)
 	wr.headers.Delete(WarcRefersToDate)
